@@ -342,6 +342,66 @@ func ruleC04Accept2(id string) func(*Checker) {
 				if fromParam {
 					c.check(viaAbs, id, gname, label+" root is absolute", p.Pos(pos), "the root operand passes through filepath.Abs", "the root the absolute target is compared with is not made absolute (filepath.Abs replaced or dropped): with a relative destination such as \".\" every in-tree link looks external, and a slug Pack produced is refused")
 				}
+				// the two sides of the comparison are spelled alike: a root resolved through the links on disk
+				// is not compared with a target that was only cleaned
+				evalIn := func(v ssa.Value) bool {
+					for w := range p.backSlice(v, 0) {
+						if cl, ok := w.(*ssa.Call); ok && isFunc(calleeObj(cl), "path/filepath", "EvalSymlinks") {
+							return true
+						}
+					}
+					return false
+				}
+				// (the root may be resolved on some path; the target then has to be on every path)
+				var mustEval func(v ssa.Value, d int) bool
+				mustEval = func(v ssa.Value, d int) bool {
+					if v == nil || d > 10 {
+						return false
+					}
+					switch x := v.(type) {
+					case *ssa.Extract:
+						return mustEval(x.Tuple, d+1)
+					case *ssa.Phi:
+						for _, e := range x.Edges {
+							if e != v && !mustEval(e, d+1) {
+								return false
+							}
+						}
+						return len(x.Edges) > 0
+					case *ssa.Call:
+						o := calleeObj(x)
+						if isFunc(o, "path/filepath", "EvalSymlinks") {
+							return true
+						}
+						if isFunc(o, "path/filepath", "Clean") || isFunc(o, "path/filepath", "Dir") {
+							return mustEval(x.Call.Args[0], d+1)
+						}
+						if isFunc(o, "path/filepath", "Join") {
+							// the base the rest is joined onto
+							if sl, ok := x.Call.Args[0].(*ssa.Slice); ok {
+								if al, ok := sl.X.(*ssa.Alloc); ok {
+									for _, w := range elemWrites(al) {
+										if ia, ok := w.Addr.(*ssa.IndexAddr); ok {
+											if k, isC := constInt(ia.Index); isC && k == 0 {
+												return mustEval(w.Val, d+1)
+											}
+										}
+									}
+								}
+							}
+						}
+						return false
+					case *ssa.BinOp:
+						return mustEval(x.X, d+1)
+					}
+					if cv := canon(v); cv != v {
+						return mustEval(cv, d+1)
+					}
+					return false
+				}
+				if fromParam {
+					c.check(!evalIn(est.Root) || mustEval(est.Subject, 0), id, gname, label+" root and target spelled alike", p.Pos(pos), "neither or both pass through filepath.EvalSymlinks", "the root is resolved through the symbolic links on disk (filepath.EvalSymlinks) and then compared with a target that is only cleaned: below a symlinked parent directory no in-tree target has the resolved root as a prefix, every in-tree link counts as external — Pack refuses the tree or, with dereferencing, stores copies in place of the links")
+				}
 				rootClean := cleanRoot(est.Root, map[ssa.Value]bool{})
 				c.check(rootClean, id, gname, label+" root is clean", p.Pos(pos), "the root operand is the result of filepath.Abs / Clean (plus separator)", "the cleaned target is compared with a root that is not lexically clean on every path (e.g. Abs skipped for absolute roots): '/a/./tree' or '/a//tree' make every in-tree link look external")
 			}
